@@ -130,9 +130,12 @@ class Batch(object):
 
 
 def run_batch(sim_name, base_seed, tier, max_runs, wall_cap, workers, chunk=25,
-              want_digests=False, stop_on_violation_of=None, start_index=0):
+              want_digests=False, stop_on_violation_of=None, start_index=0, hard_wall=None):
     """Run up to max_runs runs (indices start_index..), stop submitting at
-    wall_cap seconds.  Results are absorbed in index order."""
+    wall_cap seconds.  Results are absorbed in index order.  Chunks still in
+    flight hard_wall seconds after the start are abandoned (their runs simply
+    do not count): code under test that hangs must not turn a check into a
+    wall-clock kill."""
     t0 = time.monotonic()
     batch = Batch()
     ctx = multiprocessing.get_context("fork")
@@ -175,13 +178,19 @@ def run_batch(sim_name, base_seed, tier, max_runs, wall_cap, workers, chunk=25,
                 if not stop and time.monotonic() - t0 > wall_cap:
                     stop = True
                     batch.capped_by = "wall"
+                abandon = hard_wall is not None and time.monotonic() - t0 > hard_wall
+                if abandon and not stop:
+                    stop = True
+                    batch.capped_by = "wall"
                 if stop:
                     # runs not yet started are dropped; only a contiguous
                     # prefix of run indices is ever absorbed
                     for fut in list(pending):
                         if fut.cancel():
                             pending.pop(fut)
-                    if found_violation and pending:
+                    if abandon and pending:
+                        batch.capped_by = "wall (chunks in flight abandoned at %.0fs)" % hard_wall
+                    if (found_violation or abandon) and pending:
                         # a violation is in hand: do not wait for in-flight
                         # chunks (under a hanging mutant they can take minutes)
                         for proc in list(getattr(ex, "_processes", {}).values()):
@@ -397,8 +406,16 @@ def check(prop, tier, base_seed, workers=None):
                                      "shrink_evals": 0, "ops_before": len(doc["plan"]["ops"]),
                                      "ops_after": len(doc["plan"]["ops"])})
     print("regression replays: %d executed, %d failing" % (regress_n, len(regress_hits)))
+    hard_wall = wall_cap + max(60.0, wall_cap / 4)
+    if regress_hits:
+        # the verdict is settled: say so now (a tree that fails its regression replays may
+        # well hang elsewhere), and spend only a token budget on the batch
+        for r in regress_hits:
+            print("VIOLATION property=%s replay=%s" % (prop, r["path"]))
+        sys.stdout.flush()
+        wall_cap, hard_wall = min(wall_cap, 10.0), 25.0
     batch = run_batch(sim_name, base_seed, tier, max_runs, wall_cap, workers,
-                      chunk=budget.get("chunk", 25), stop_on_violation_of=[prop])
+                      chunk=budget.get("chunk", 25), stop_on_violation_of=[prop], hard_wall=hard_wall)
     mine = [v for v in batch.violations if v["violation"]["property"] == prop]
     findings = load_findings()
     reported = list(regress_hits)
@@ -483,7 +500,8 @@ def check(prop, tier, base_seed, workers=None):
                  r["ops_before"], r["ops_after"], r["shrink_evals"]))
         print(json.dumps(r["violation"].get("detail"), sort_keys=True)[:1500])
         print("  (replay: bin/labsim replay %s   readable form: bin/labsim explain %s)" % (r["path"], r["path"]))
-        print("VIOLATION property=%s replay=%s" % (prop, r["path"]))
+        if not any(r is h for h in regress_hits):  # those were printed at once
+            print("VIOLATION property=%s replay=%s" % (prop, r["path"]))
     sys.stdout.flush()
     if reported:
         return 1
